@@ -749,13 +749,16 @@ class S3ChunkStore(ChunkStore):
         chunk_name, _ = self.chunk_metadata(array_name, slices, chunk=chunk)
         url = self.make_url(chunk_name + _CHUNK_EXTENSION)
         npy_header, chunk = npy_header_and_body(chunk)
+        # View the (C-contiguous) chunk as flat bytes, as zero-dimensional arrays have
+        # no length and dtypes like datetime64 do not support the buffer protocol
+        body = chunk.reshape(-1).view(np.uint8)
         # Compute the MD5 sum to protect the object against corruption in
         # transmission.
         md5_gen = hashlib.md5(npy_header)
-        md5_gen.update(chunk)
+        md5_gen.update(body)
         md5 = base64.b64encode(md5_gen.digest())
         headers = {'Content-MD5': md5.decode()}
-        data = _Multipart([npy_header, memoryview(chunk)])
+        data = _Multipart([npy_header, memoryview(body)])
         self.request('PUT', url, chunk_name=chunk_name, headers=headers, data=data)
 
     def mark_complete(self, array_name):
